@@ -180,6 +180,7 @@ Definition dec_gop (opc arg : N) : option gop :=
   | 1 => Some GBlkReadonly | 2 => Some GBlkFlush | 3 => Some GConsoleSize | 4 => Some GConsoleEmergWrite
   | 5 => Some GGpuGetEdid | 6 => Some GNetHeader | 7 => Some (GNetSend arg) | 8 => Some (GRngRequest arg)
   | 9 => Some (GGpuEdidVia 9) | 10 => Some (GGpuEdidVia 10) | 11 => Some GNetRecvHdr
+  | 12 => Some (GNetTxBegin arg) | 13 => Some GBlkFill
   | _ => None
   end.
 
@@ -247,6 +248,14 @@ Definition mon_gate (ins : list N) : list N :=
   | _ => ibad
   end.
 
+(* 855 MONITOR transmit buffer length: ins [driver; offered; buffer length; result class] *)
+Definition mon_tx_len (ins : list N) : list N :=
+  match ins with
+  | [d; offered; len; rc] =>
+      match dec_driver d with Some d => [b2n (gate_tx_len_b (negotiated d offered) len rc)] | None => ibad end
+  | _ => ibad
+  end.
+
 Definition init_step (k : N) (ins : list N) : list N :=
   if k =? 810 then run_construct ins else
   if k =? 811 then run_construct_mmio ins else
@@ -256,6 +265,7 @@ Definition init_step (k : N) (ins : list N) : list N :=
   if k =? 851 then mon_handshake_mmio ins else
   if k =? 852 then mon_flags ins else
   if k =? 853 then mon_gate ins else
+  if k =? 855 then mon_tx_len ins else
   if k =? 854 then mon_handshake_pci ins else
   ibad.
 
